@@ -9,6 +9,11 @@ every event, the values hash((constant, function)) & 7 of its listeners are dist
 requested order.  A listener set that never held more than 4 distinct entries has an 8-slot table; every entry
 then sits in its home slot and CPython iterates in the requested order, whatever was added or removed before.
 The harnesses verify the order on every dispatch they can (a mismatch is a harness error, never a verdict).
+
+A dispatcher that hashes its weak references by identity (id of the handler) ignores these constants.  `steer`
+therefore works black-box on top of them: it builds candidate handler objects, asks a probe (scratch dispatcher,
+plain dispatches) whether they are served in the requested order, and retries with fresh objects (other addresses)
+until they are.  With referent hashing the first candidates fit; with identity hashing a few dozen tries do.
 """
 import itertools
 
@@ -50,3 +55,21 @@ def order_hashes(events, n, order):
         raise RuntimeError('no hash constants found for listener order %r' % (order,))
     _CACHE[key] = out
     return out
+
+
+class HarnessBug(BaseException):
+    """The harness lost control of something it relies on.  BaseException: must not be mistaken for an exception
+    of the code under test by an `except Exception` around it."""
+
+
+def steer(make, probe, tries=3000):
+    """make() -> fresh candidates; probe(candidates) -> bool.  Returns (candidates, number of the try that fitted
+    or 0 if none did)."""
+    held = []
+    cands = None
+    for t in range(tries):
+        cands = make()
+        if probe(cands):
+            return cands, t + 1
+        held.append(cands)          # keep them alive: the next candidates get other addresses
+    return cands, 0
